@@ -125,55 +125,48 @@ Theorem C08_digit_string :
 Proof. split; [exact digit_string|exact digit_string_too_long]. Qed.
 Print Assumptions C08_digit_string.
 
-(* ---- floats: NaN and the infinities give None; a finite float m * 2^e is read as the
-   integer int() makes of it (so 1e300 gives None by C08_epoch_out_of_range) ---- *)
+(* ---- floats are Unix seconds too: NaN and the infinities give None; a finite float
+   m * 2^e is read as its floor (whole seconds, also before 1970: -1.5 is 23:59:58), and
+   [floor_of] is the floor.  (F-C08-3, fixed in c6c13f3: the floor replaced int().) ---- *)
 Theorem C08_float_inputs :
   parse_iso (VFloat FNan) = Ok None /\ parse_iso (VNpFloat64 FNan) = Ok None /\
   parse_iso (VFloat FInf) = Ok None /\ parse_iso (VNpFloat64 FInf) = Ok None /\
-  (forall m e, parse_iso (VFloat (FFin m e)) = parse_iso (VInt (trunc_of m e)) /\
-               parse_iso (VNpFloat64 (FFin m e)) = parse_iso (VInt (trunc_of m e))).
+  (forall m e, parse_iso (VFloat (FFin m e)) = parse_iso (VInt (floor_of m e)) /\
+               parse_iso (VNpFloat64 (FFin m e)) = parse_iso (VInt (floor_of m e))) /\
+  (forall m e, (0 <= e -> floor_of m e = m * 2 ^ e) /\
+               (e < 0 -> floor_of m e * 2 ^ (- e) <= m < (floor_of m e + 1) * 2 ^ (- e))).
 Proof.
   split; [exact (proj1 float_nan)|]. split; [exact (proj2 float_nan)|].
-  split; [exact (proj1 float_inf)|]. split; [exact (proj2 float_inf)|]. exact float_finite.
+  split; [exact (proj1 float_inf)|]. split; [exact (proj2 float_inf)|].
+  split; [exact float_finite|exact floor_of_spec].
 Qed.
 Print Assumptions C08_float_inputs.
 
-(* Full statement (wall clock truncated to whole seconds = floor):
-     forall m e, parse_iso (VFloat (FFin m e)) = parse_iso (VInt (floor_of m e)).
-   Proved for non-negative floats; refuted for negative non-integral ones (candidate
-   finding F-C08-3: -1.5 is read as 23:59:59, the text 1969-12-31T23:59:58.5 as 23:59:58). *)
-Theorem C08_float_floor_partial :
-  forall m e, 0 <= m -> parse_iso (VFloat (FFin m e)) = parse_iso (VInt (floor_of m e)).
-Proof. intros m e H. rewrite <- (float_nonneg_floor m e H). exact (proj1 (float_finite m e)). Qed.
-Print Assumptions C08_float_floor_partial.
+(* ---- numpy.datetime64 of any unit, given the whole seconds NumPy's conversion to
+   datetime64[s] returned: read as that integer (so, by the epoch theorems, the civil time
+   of the floor of the instant in range and None outside); NaT (smallest int64) and a
+   conversion overflow give None.  For a fixed-length unit of num/den seconds the floor of
+   instant i is [instant_floor num den i]. ---- *)
+Theorem C08_np_datetime64 :
+  (forall n, parse_iso (VNpDatetime64 (NpSecs n)) = parse_iso (VInt n)) /\
+  (forall num den i, parse_iso (VNpDatetime64 (NpSecs (instant_floor num den i))) = parse_iso (VInt ((i * num) / den))) /\
+  parse_iso (VNpDatetime64 (NpSecs int64_min)) = Ok None /\
+  parse_iso (VNpDatetime64 NpOverflow) = Ok None.
+Proof.
+  split; [exact np_datetime64_secs|]. split; [intros num den i; exact (np_datetime64_secs _)|].
+  split; [exact np_datetime64_nat|exact np_datetime64_overflow].
+Qed.
+Print Assumptions C08_np_datetime64.
 
-Theorem C08_float_floor_refuted :
-  exists m e, m < 0 /\ e < 0 /\ parse_iso (VFloat (FFin m e)) <> parse_iso (VInt (floor_of m e)).
-Proof. exact float_floor_refuted. Qed.
-Print Assumptions C08_float_floor_refuted.
-
-(* ---- numpy.datetime64, given what astype(datetime) returned: NaT gives None, date and
-   datetime results map like native inputs ... ---- *)
-Theorem C08_np_datetime64_partial :
-  parse_iso (VNpDatetime64 AsNone) = Ok None /\
-  (forall y m d, parse_iso (VNpDatetime64 (AsDate y m d)) = Ok (Some (y, m, d, 0, 0, 0, 0))) /\
-  (forall y m d h mi s us, parse_iso (VNpDatetime64 (AsDatetime y m d h mi s us)) = Ok (Some (y, m, d, h, mi, s, 0))).
-Proof. exact np_datetime64_units. Qed.
-Print Assumptions C08_np_datetime64_partial.
-
-(* ... but an integer result (nanosecond units) is divided in floating point and truncated
-   toward zero: before 1970 the second is rounded up (F-C08-3). *)
-Theorem C08_np_datetime64_ns_refuted :
-  exists n, parse_iso (VNpDatetime64 (AsInt n)) <> parse_iso (VInt (n / 1000000000)).
-Proof. exact np_ns_floor_refuted. Qed.
-Print Assumptions C08_np_datetime64_ns_refuted.
-
-(* ---- objects with to_pydatetime (pandas): the returned value is passed through as is,
-   so a sub-second part survives (candidate finding F-C08-4) ---- *)
-Theorem C08_to_pydatetime_refuted :
-  exists t, valid_dt t = false /\ parse_iso (VToPy (Some t)) = Ok (Some t).
-Proof. exact topy_refuted. Qed.
-Print Assumptions C08_to_pydatetime_refuted.
+(* ---- objects with to_pydatetime (pandas): exactly like the native value they convert
+   to - microseconds dropped - and None when the conversion gives anything else (NaT).
+   (F-C08-4, fixed in 81d781c.) ---- *)
+Theorem C08_to_pydatetime :
+  (forall y m d h mi s us, parse_iso (VToPy (ToDatetime y m d h mi s us)) = parse_iso (VDatetime y m d h mi s us)) /\
+  (forall y m d, parse_iso (VToPy (ToDate y m d)) = parse_iso (VDate y m d)) /\
+  parse_iso (VToPy ToOther) = Ok None.
+Proof. exact topy_native. Qed.
+Print Assumptions C08_to_pydatetime.
 
 (* ---- every other modelled input gives None ---- *)
 Theorem C08_other_none : parse_iso VOther = Ok None.
@@ -244,6 +237,13 @@ Example C08_nanosecond_fraction :
   parse_iso (VStr (render_seconds 2020 1 1 10 0 0 cT fr SNone)) = Ok (Some (2020, 1, 1, 10, 0, 0, 0)) /\
   parse_iso (VStr (render_seconds 2020 1 1 10 0 0 cT fr (SPlus true 0 0))) = Ok None.
 Proof. vm_compute. split; reflexivity. Qed.
+
+(* the former witnesses of F-C08-3 / F-C08-4: -1.5 s, -1.5e9 ns (NumPy gives -2), 0.5 s past 10:00 *)
+Example C08_subsecond_witnesses :
+  parse_iso (VFloat (FFin (-3) (-1))) = Ok (Some (1969, 12, 31, 23, 59, 58, 0)) /\
+  parse_iso (VNpDatetime64 (NpSecs (instant_floor 1 1000000000 (-1500000000)))) = Ok (Some (1969, 12, 31, 23, 59, 58, 0)) /\
+  parse_iso (VToPy (ToDatetime 2020 1 1 10 0 0 500000)) = Ok (Some (2020, 1, 1, 10, 0, 0, 0)).
+Proof. vm_compute. repeat split; reflexivity. Qed.
 
 (* the range ends *)
 Example C08_epoch_ends :
